@@ -112,6 +112,11 @@ def run_impl(case):
         gs = g.swap()
         out["gcm"] = [[int(v) for v in m.reshape(-1)] for m in g.cm(thr).matrix]
         out["gcm_swap"] = [[int(v) for v in m.reshape(-1)] for m in gs.cm(thr).matrix]
+        # group-wise views (touch the per-group cache before swapping as well)
+        out["ggcm"] = [[int(v) for v in m.reshape(-1)] for m in g.group_cm(thr).matrix.reshape(-1, 2, 2)]
+        out["ggcm_swap"] = [[int(v) for v in m.reshape(-1)] for m in g.swap().group_cm(thr).matrix.reshape(-1, 2, 2)]
+        out["gfpr"] = [enc(float(v)) for v in np.asarray(g.group_fpr(thr)).reshape(-1)]
+        out["gfnr_swap"] = [enc(float(v)) for v in np.asarray(g.swap().group_fnr(thr)).reshape(-1)]
     return out
 
 
@@ -173,6 +178,11 @@ def oracle(case, res):
         for j, m in enumerate(r["gcm"]):
             if r["gcm_swap"][j] != [m[3], m[2], m[1], m[0]]:
                 fails.append((f"C08/group-swap-cm/{cfg}", f"GroupScores.swap: cm {m} vs {r['gcm_swap'][j]}"))
+        for j, m in enumerate(r["ggcm"]):
+            if r["ggcm_swap"][j] != [m[3], m[2], m[1], m[0]]:
+                fails.append((f"C08/group-swap-group-cm/{cfg}", f"per-group cm #{j}: {m} vs swapped object's {r['ggcm_swap'][j]}"))
+        if r["gfpr"] != r["gfnr_swap"]:
+            fails.append((f"C08/group-swap-rates/{cfg}", f"group_fpr {r['gfpr']} != group_fnr of the swapped object {r['gfnr_swap']}"))
     a, b = F(case["a"]), F(case["b"])
     allv = [abs(F(x)) for x in case["pos"] + case["neg"]] + [Fraction(1)]
     tau = tc.tau(dict(case, metric="topr"))
